@@ -2,8 +2,8 @@ from . import COMMON_TB, NOTE
 
 PROP = {
     "level": "proof",
-    "modules": [],
-    "streams": [{"name": "immut"}],
+    "modules": ["Proofs.C15Heap"],
+    "streams": [{"name": "immut"}, {"name": "alias"}],
     "rule": "immut: sequences of 2..40 operations (Render, RenderString, FRender on templates parsed once, ParseAndRender) "
             "on one engine over working sets drawn from pools of 40 generated templates x 12 environments of one schema "
             "(array-filter heavy: sort, reverse, uniq, concat, compact, map, first, last, join, sort_natural applied to "
@@ -12,7 +12,10 @@ PROP = {
             "snapshot (slice len/cap/elements up to cap, map entries, struct fields, pointer targets, identities) is "
             "taken before and compared after each render and at the end; each result must equal the result of the same "
             "(template, environment) rendered alone on a fresh engine with fresh bindings (a render whose result varies "
-            "by itself is C02's matter and is counted, not reported). Non-trivial = a sequence with a successful render.",
+            "by itself is C02's matter and is counted, not reported). Non-trivial = a sequence with a successful render. "
+            "alias: pipelines of array filters on caller-owned []any values realised as sub-slices of larger backing arrays "
+            "filled with a sentinel (generation rule under C15); the oracle reports C03 bindings-modified when any location of "
+            "a caller's array, or the deep snapshot of the bindings map, differs after the evaluation.",
     "trusted_base": COMMON_TB,
     "assumptions": [],
 }
@@ -25,11 +28,17 @@ TEXT = {
               'several templates and bindings on one engine) is answered by the model and compared with the real engine op by op; '
               "on the real code the caller's bindings are deep-snapshotted (addresses, lengths, spare capacity, contents) around "
               'every render, and every render is compared with the same render on a fresh engine, confirmed by replaying the '
-              'history prefix from scratch.'),
+              'history prefix from scratch. Slices reachable from the bindings (Proofs/C15Heap.lean, on the slice-memory model '
+              "Liquid/Heap.lean): array_filters_do_not_write_inputs, pipeline_no_write -- every filter application and every "
+              "pipeline of the array filters (and default) writes only into arrays it allocated itself, so the caller's backing "
+              "arrays, spare capacity included, are unchanged; convert_passes_generic_slice_through / array_results_never_alias / "
+              "default_returns_its_input_uncopied state which values share memory with the caller's; tied by the `alias` stream "
+              "(real []any values with spare capacity: result, alias flag, changed locations)."),
     "design_ref": 'DESIGN.md 6 C03',
-    "note": NOTE + ("Partial in one respect: the model's values are immutable, so in-place modification of a caller's Go slice/map "
-              'through aliasing cannot be expressed as a theorem; that clause is carried by the snapshot oracle on the real code '
-              "(and by C15's input-unmodified oracle)."),
-    "technique": ('Lean 4 proof (induction over operation histories) + model/implementation correspondence over generated histories + '
+    "note": NOTE + ("In-place modification of a caller's slice by a filter is a theorem about the slice-memory model (C15Heap). Still "
+              "carried by the snapshot oracles only: writes through maps, structs and pointers, through nested slices inside "
+              "elements, and by tags (assign/capture/for work on the render's own variable map, copied from the bindings)."),
+    "technique": ('Lean 4 proof (induction over operation histories; write-log invariant on a slice-memory model, induction over '
+              'pipelines) + model/implementation correspondence over generated histories and over slices with spare capacity + '
               'deep-snapshot oracle on the implementation'),
 }
